@@ -1,0 +1,58 @@
+//go:build verif
+
+// Contracts for the deductive checks under /verif (comment-only; compiled only with -tags verif).
+// Key encodings of the Merkle-Patricia trie (Yellow Paper appendix C, hex-prefix encoding).
+
+package trie
+
+//@ func hasTerm
+//@   ensures[C10] result <==> (len(s) > 0 && s[len(s)-1] == 16)
+//@   assigns nothing
+//@   nopanic[C10]
+
+// keybytesToHex: two nibbles per key byte, high nibble first, followed by the terminator 16.
+//@ func keybytesToHex
+//@   requires len(str) <= 549755813887
+//@   ensures[C10] len(result) == 2*len(str) + 1 && fresh(result)
+//@   ensures[C10] forall k int :: 0 <= k && k < len(str) ==> result[2*k] == str[k] >> 4 && result[2*k+1] == str[k] & 15
+//@   ensures[C10] result[2*len(str)] == 16
+//@   loop 1 invariant[C10] 0 <= $k && $k <= len(str) && len(nibbles) == 2*len(str) + 1 && fresh(nibbles) && l == 2*len(str) + 1
+//@   loop 1 invariant[C10] forall k int :: 0 <= k && k < $k ==> nibbles[2*k] == str[k] >> 4 && nibbles[2*k+1] == str[k] & 15
+//@   nopanic[C10]
+
+// decodeNibbles packs pairs of nibbles into bytes.
+//@ func decodeNibbles
+//@   requires len(nibbles) % 2 == 0 && len(bytes) >= len(nibbles) / 2 && ref(nibbles) != ref(bytes)
+//@   ensures[C10] forall k int :: 0 <= k && k < len(nibbles) / 2 ==> bytes[k] == nibbles[2*k] << 4 | nibbles[2*k+1]
+//@   loop 1 invariant[C10] 0 <= bi && bi <= len(nibbles) && ni == 2*bi && ni <= len(nibbles)
+//@   loop 1 invariant[C10] forall k int :: 0 <= k && k < bi ==> bytes[k] == nibbles[2*k] << 4 | nibbles[2*k+1]
+//@   assigns bytes
+//@   nopanic[C10]
+
+// prefixLen is the length of the longest common prefix.
+//@ func prefixLen
+//@   ensures[C10] 0 <= result && result <= len(a) && result <= len(b)
+//@   ensures[C10] forall k int :: 0 <= k && k < result ==> a[k] == b[k]
+//@   ensures[C10] result < len(a) && result < len(b) ==> a[result] != b[result]
+//@   loop 1 invariant[C10] 0 <= i && i <= length && length <= len(a) && length <= len(b) && (length == len(a) || length == len(b))
+//@   loop 1 invariant[C10] forall k int :: 0 <= k && k < i ==> a[k] == b[k]
+//@   assigns nothing
+//@   nopanic[C10]
+
+// Compact (hex-prefix) encoding: flag nibble 2*terminator + odd, then the packed nibbles.
+//@ macro hexkey(hex) = forall k int :: 0 <= k && k < len(hex) ==> (hex[k] < 16 || (k == len(hex) - 1 && hex[k] == 16))
+//@ func hexToCompact
+//@   requires hexkey(hex)
+//@   ensures[C10] len(result) >= 1 && fresh(result)
+//@   ensures[C10] (result[0] >> 5 == 1) <==> old(len(hex) > 0 && hex[len(hex)-1] == 16)
+//@   nopanic[C10]
+
+// Decoding never panics, whatever bytes a stored node holds.
+//@ func compactToHex
+//@   requires len(compact) <= 549755813887
+//@   nopanic[C10]
+
+//@ func hexToKeybytes
+//@   panics when (len(hex) > 0 && hex[len(hex)-1] == 16 && (len(hex) - 1) % 2 != 0) || (!(len(hex) > 0 && hex[len(hex)-1] == 16) && len(hex) % 2 != 0)
+//@   ensures[C10] fresh(result)
+//@   nopanic[C10]
